@@ -2,6 +2,21 @@
 """Regenerates MANIFEST.json from the table below (run after adding a property)."""
 import json, subprocess
 CLAIMED = {
+ "C02": dict(
+   text="Metamorphic testing, implementation against itself: 16 rewrite rules (the seven spellings named in the statement plus once-executing context wrappers with every STEP form) applied on the IR of generated programs at one / some / all sites, plus an enumerated family of all 14x14 construct nestings around 12 statement groups compared with a flat FOR spelling. Printed output and error code must be identical.",
+   note="Trusted: the rewrite rules preserve meaning by the statement itself (they are the equivalences it lists) and the IR printer. No reference semantics involved.",
+   technique="proptest program generation + metamorphic rewrite relation; bounded-exhaustive nesting enumeration",
+   design="6/C02"),
+ "C03": dict(
+   text="Differential testing of generated programs with SUBs/FUNCTIONs (STATIC, SHARED, CONST, recursion, every argument shape) against the reference semantics of calls (copy-in/copy-out left to right, fresh locals, persistent STATIC blocks); stdout, ending and the final dump of module-level variables compared.",
+   note="Trusted: reference semantics (Appendix A), hook run entry and global-variable dump. Undefined aliasing is never generated.",
+   technique="proptest tape-decoded program generation + differential oracle (reference semantics) + final-state dump",
+   design="6/C03"),
+ "C15": dict(
+   text="Every generated and every repository-embedded program is compiled and its instruction list checked by a static well-formedness checker and an abstract interpreter over the depth vector of the six VM stacks on all control-flow paths; then run with a dynamic re-check of the depth vector at statement starts. Test-time analysis of generated outputs, not a proof over all programs.",
+   note="Trusted: the per-instruction stack effects transcribed from Interpreter::interpret_one; callee balance assumed at call sites and checked per procedure body.",
+   technique="generated-program search + abstract interpretation of each produced instruction list + dynamic depth invariant",
+   design="6/C15"),
  "C01": dict(
    text="Differential testing against an independent big-step reference semantics with exact dyadic arithmetic over tape-generated core-language programs (thousands per run, every construct nested in every other); output bytes, error code and error position compared. Three-valued: cases the statements do not determine are discarded and counted. Explored-set assurance only.",
    note="Trusted: the reference semantics (DESIGN.md Appendix A), the IR printer's site map, the hook run entry. Failures that pass through a listed known-defect trigger are attributed to that finding.",
